@@ -22,6 +22,9 @@ Model/MonC09.vos Model/MonC09.vok Model/MonC09.required_vos: Model/MonC09.v Mode
 Model/MonC01.vo Model/MonC01.glob Model/MonC01.v.beautified Model/MonC01.required_vo: Model/MonC01.v Model/Mon.vo
 Model/MonC01.vio: Model/MonC01.v Model/Mon.vio
 Model/MonC01.vos Model/MonC01.vok Model/MonC01.required_vos: Model/MonC01.v Model/Mon.vos
+Model/MonC05.vo Model/MonC05.glob Model/MonC05.v.beautified Model/MonC05.required_vo: Model/MonC05.v Model/Mon.vo
+Model/MonC05.vio: Model/MonC05.v Model/Mon.vio
+Model/MonC05.vos Model/MonC05.vok Model/MonC05.required_vos: Model/MonC05.v Model/Mon.vos
 Proofs/Framework.vo Proofs/Framework.glob Proofs/Framework.v.beautified Proofs/Framework.required_vo: Proofs/Framework.v Model/Mon.vo
 Proofs/Framework.vio: Proofs/Framework.v Model/Mon.vio
 Proofs/Framework.vos Proofs/Framework.vok Proofs/Framework.required_vos: Proofs/Framework.v Model/Mon.vos
@@ -31,6 +34,9 @@ Proofs/StoreLocks.vos Proofs/StoreLocks.vok Proofs/StoreLocks.required_vos: Proo
 Proofs/StorePromises.vo Proofs/StorePromises.glob Proofs/StorePromises.v.beautified Proofs/StorePromises.required_vo: Proofs/StorePromises.v Model/Mon.vo Proofs/StoreLocks.vo
 Proofs/StorePromises.vio: Proofs/StorePromises.v Model/Mon.vio Proofs/StoreLocks.vio
 Proofs/StorePromises.vos Proofs/StorePromises.vok Proofs/StorePromises.required_vos: Proofs/StorePromises.v Model/Mon.vos Proofs/StoreLocks.vos
+Proofs/StoreCallbacks.vo Proofs/StoreCallbacks.glob Proofs/StoreCallbacks.v.beautified Proofs/StoreCallbacks.required_vo: Proofs/StoreCallbacks.v Model/Mon.vo Proofs/StoreLocks.vo Proofs/StorePromises.vo
+Proofs/StoreCallbacks.vio: Proofs/StoreCallbacks.v Model/Mon.vio Proofs/StoreLocks.vio Proofs/StorePromises.vio
+Proofs/StoreCallbacks.vos Proofs/StoreCallbacks.vok Proofs/StoreCallbacks.required_vos: Proofs/StoreCallbacks.v Model/Mon.vos Proofs/StoreLocks.vos Proofs/StorePromises.vos
 Proofs/Discipline.vo Proofs/Discipline.glob Proofs/Discipline.v.beautified Proofs/Discipline.required_vo: Proofs/Discipline.v Model/Mon.vo Proofs/StoreLocks.vo Proofs/StorePromises.vo
 Proofs/Discipline.vio: Proofs/Discipline.v Model/Mon.vio Proofs/StoreLocks.vio Proofs/StorePromises.vio
 Proofs/Discipline.vos Proofs/Discipline.vok Proofs/Discipline.required_vos: Proofs/Discipline.v Model/Mon.vos Proofs/StoreLocks.vos Proofs/StorePromises.vos
@@ -40,15 +46,18 @@ Proofs/SysInv.vos Proofs/SysInv.vok Proofs/SysInv.required_vos: Proofs/SysInv.v 
 Proofs/Eqb.vo Proofs/Eqb.glob Proofs/Eqb.v.beautified Proofs/Eqb.required_vo: Proofs/Eqb.v Model/Mon.vo
 Proofs/Eqb.vio: Proofs/Eqb.v Model/Mon.vio
 Proofs/Eqb.vos Proofs/Eqb.vok Proofs/Eqb.required_vos: Proofs/Eqb.v Model/Mon.vos
-Proofs/PC09.vo Proofs/PC09.glob Proofs/PC09.v.beautified Proofs/PC09.required_vo: Proofs/PC09.v Model/Mon.vo Model/MonC09.vo Proofs/Framework.vo Proofs/StoreLocks.vo Proofs/Discipline.vo Proofs/SysInv.vo Proofs/Eqb.vo
-Proofs/PC09.vio: Proofs/PC09.v Model/Mon.vio Model/MonC09.vio Proofs/Framework.vio Proofs/StoreLocks.vio Proofs/Discipline.vio Proofs/SysInv.vio Proofs/Eqb.vio
-Proofs/PC09.vos Proofs/PC09.vok Proofs/PC09.required_vos: Proofs/PC09.v Model/Mon.vos Model/MonC09.vos Proofs/Framework.vos Proofs/StoreLocks.vos Proofs/Discipline.vos Proofs/SysInv.vos Proofs/Eqb.vos
+Proofs/PC09.vo Proofs/PC09.glob Proofs/PC09.v.beautified Proofs/PC09.required_vo: Proofs/PC09.v Model/Mon.vo Model/MonC09.vo Proofs/Framework.vo Proofs/StoreLocks.vo Proofs/StorePromises.vo Proofs/Discipline.vo Proofs/SysInv.vo Proofs/Eqb.vo
+Proofs/PC09.vio: Proofs/PC09.v Model/Mon.vio Model/MonC09.vio Proofs/Framework.vio Proofs/StoreLocks.vio Proofs/StorePromises.vio Proofs/Discipline.vio Proofs/SysInv.vio Proofs/Eqb.vio
+Proofs/PC09.vos Proofs/PC09.vok Proofs/PC09.required_vos: Proofs/PC09.v Model/Mon.vos Model/MonC09.vos Proofs/Framework.vos Proofs/StoreLocks.vos Proofs/StorePromises.vos Proofs/Discipline.vos Proofs/SysInv.vos Proofs/Eqb.vos
 Proofs/PC01.vo Proofs/PC01.glob Proofs/PC01.v.beautified Proofs/PC01.required_vo: Proofs/PC01.v Model/Mon.vo Model/MonC01.vo Proofs/Framework.vo Proofs/StoreLocks.vo Proofs/StorePromises.vo Proofs/Discipline.vo Proofs/SysInv.vo Proofs/Eqb.vo
 Proofs/PC01.vio: Proofs/PC01.v Model/Mon.vio Model/MonC01.vio Proofs/Framework.vio Proofs/StoreLocks.vio Proofs/StorePromises.vio Proofs/Discipline.vio Proofs/SysInv.vio Proofs/Eqb.vio
 Proofs/PC01.vos Proofs/PC01.vok Proofs/PC01.required_vos: Proofs/PC01.v Model/Mon.vos Model/MonC01.vos Proofs/Framework.vos Proofs/StoreLocks.vos Proofs/StorePromises.vos Proofs/Discipline.vos Proofs/SysInv.vos Proofs/Eqb.vos
 Proofs/PC16.vo Proofs/PC16.glob Proofs/PC16.v.beautified Proofs/PC16.required_vo: Proofs/PC16.v Model/Mon.vo Proofs/StoreLocks.vo Proofs/StorePromises.vo Proofs/Eqb.vo
 Proofs/PC16.vio: Proofs/PC16.v Model/Mon.vio Proofs/StoreLocks.vio Proofs/StorePromises.vio Proofs/Eqb.vio
 Proofs/PC16.vos Proofs/PC16.vok Proofs/PC16.required_vos: Proofs/PC16.v Model/Mon.vos Proofs/StoreLocks.vos Proofs/StorePromises.vos Proofs/Eqb.vos
+Proofs/PC05.vo Proofs/PC05.glob Proofs/PC05.v.beautified Proofs/PC05.required_vo: Proofs/PC05.v Model/Mon.vo Model/MonC05.vo Proofs/Framework.vo Proofs/StoreLocks.vo Proofs/StorePromises.vo Proofs/StoreCallbacks.vo Proofs/Discipline.vo Proofs/SysInv.vo Proofs/Eqb.vo
+Proofs/PC05.vio: Proofs/PC05.v Model/Mon.vio Model/MonC05.vio Proofs/Framework.vio Proofs/StoreLocks.vio Proofs/StorePromises.vio Proofs/StoreCallbacks.vio Proofs/Discipline.vio Proofs/SysInv.vio Proofs/Eqb.vio
+Proofs/PC05.vos Proofs/PC05.vok Proofs/PC05.required_vos: Proofs/PC05.v Model/Mon.vos Model/MonC05.vos Proofs/Framework.vos Proofs/StoreLocks.vos Proofs/StorePromises.vos Proofs/StoreCallbacks.vos Proofs/Discipline.vos Proofs/SysInv.vos Proofs/Eqb.vos
 Props/C09.vo Props/C09.glob Props/C09.v.beautified Props/C09.required_vo: Props/C09.v Model/Mon.vo Model/MonC09.vo Proofs/StoreLocks.vo Proofs/Discipline.vo Proofs/SysInv.vo Proofs/PC09.vo
 Props/C09.vio: Props/C09.v Model/Mon.vio Model/MonC09.vio Proofs/StoreLocks.vio Proofs/Discipline.vio Proofs/SysInv.vio Proofs/PC09.vio
 Props/C09.vos Props/C09.vok Props/C09.required_vos: Props/C09.v Model/Mon.vos Model/MonC09.vos Proofs/StoreLocks.vos Proofs/Discipline.vos Proofs/SysInv.vos Proofs/PC09.vos
@@ -58,3 +67,6 @@ Props/C01.vos Props/C01.vok Props/C01.required_vos: Props/C01.v Model/Mon.vos Mo
 Props/C16.vo Props/C16.glob Props/C16.v.beautified Props/C16.required_vo: Props/C16.v Model/Mon.vo Proofs/StoreLocks.vo Proofs/StorePromises.vo Proofs/PC16.vo
 Props/C16.vio: Props/C16.v Model/Mon.vio Proofs/StoreLocks.vio Proofs/StorePromises.vio Proofs/PC16.vio
 Props/C16.vos Props/C16.vok Props/C16.required_vos: Props/C16.v Model/Mon.vos Proofs/StoreLocks.vos Proofs/StorePromises.vos Proofs/PC16.vos
+Props/C05.vo Props/C05.glob Props/C05.v.beautified Props/C05.required_vo: Props/C05.v Model/Mon.vo Model/MonC05.vo Proofs/StoreLocks.vo Proofs/StorePromises.vo Proofs/StoreCallbacks.vo Proofs/Discipline.vo Proofs/SysInv.vo Proofs/PC05.vo
+Props/C05.vio: Props/C05.v Model/Mon.vio Model/MonC05.vio Proofs/StoreLocks.vio Proofs/StorePromises.vio Proofs/StoreCallbacks.vio Proofs/Discipline.vio Proofs/SysInv.vio Proofs/PC05.vio
+Props/C05.vos Props/C05.vok Props/C05.required_vos: Props/C05.v Model/Mon.vos Model/MonC05.vos Proofs/StoreLocks.vos Proofs/StorePromises.vos Proofs/StoreCallbacks.vos Proofs/Discipline.vos Proofs/SysInv.vos Proofs/PC05.vos
